@@ -57,3 +57,81 @@ rewrite mx_of_lcol in La.
 by rewrite (quad_form_factor LLt Lunit La Ax).
 Qed.
 End LogpQuasisep.
+
+(* ---------------- C02: the conditional mean and covariance of the model ---------------- *)
+Section CondModel.
+Variable F : fieldType.
+Variables (sq : F -> F) (lt : F -> F -> bool).
+Notation fops := (fops sq lt).
+
+Lemma cv_of_lcolv' m (M : mat F) : cv_of m (lcolv fops m M 0) = mx_of m 1 M.
+Proof. by apply/matrixP => i j; rewrite !mxE nth_vmk // !ord1. Qed.
+
+(* mean: the three paths of GaussianProcess._condition.  `Nm` is the matrix the noise model denotes through `@`
+   (C11: diagonal_matmul / banded_matmul / dense_matmul) *)
+Theorem cond_mean_paths n nt (N : noise F) (Nm Km : 'M[F]_n) (a2 y mu mut : vec F) (Kcross : mat F) :
+  (forall v, mx_of n 1 (nmatmul fops 1 N (lcol fops n v)) = Nm *m cv_of n v) ->
+  (Km + Nm) *m cv_of n a2 = cv_of n (vsub fops n y mu) ->
+  [/\ cv_of n (gp_condition_mean fops n nt FastPath true a2 y mu N Kcross mut) = Km *m cv_of n a2 + cv_of n mu,
+      cv_of n (gp_condition_mean fops n nt FastPath false a2 y mu N Kcross mut) = Km *m cv_of n a2 &
+      cv_of n (gp_condition_mean fops n nt KernelPathSelf true a2 y mu N Kcross mut) = mx_of n n Kcross *m cv_of n a2 + cv_of n mu] /\
+  [/\ cv_of n (gp_condition_mean fops n nt KernelPathSelf false a2 y mu N Kcross mut) = mx_of n n Kcross *m cv_of n a2,
+      cv_of nt (gp_condition_mean fops n nt NewInputs true a2 y mu N Kcross mut) = mx_of nt n Kcross *m cv_of n a2 + cv_of nt mut &
+      cv_of nt (gp_condition_mean fops n nt NewInputs false a2 y mu N Kcross mut) = mx_of nt n Kcross *m cv_of n a2].
+Proof.
+move=> HN Sa.
+have fast : cv_of n (vsub fops n y (lcolv fops n (nmatmul fops 1 N (lcol fops n a2)) 0)) = Km *m cv_of n a2 + cv_of n mu.
+  rewrite cv_of_vsub cv_of_lcolv' HN; apply: cond_mean_fast.
+  by rewrite Sa cv_of_vsub.
+split; split; rewrite /gp_condition_mean ?cv_of_vadd ?cv_of_vsub ?cv_of_lmatvec //.
+  by rewrite -(cv_of_vsub sq lt) fast.
+by rewrite -(cv_of_vsub sq lt) fast addrK.
+Qed.
+
+(* covariance, dense fallback of QuasisepSolver.condition: A = L^-1 K* by forward substitution *)
+Theorem cond_cov_quasisep_dense nt (d : vec F) (l : tri F) (Sm : 'M[F]_(tn l)) (Ks Kss : mat F) (Nstar : noise F)
+    (Nsm : 'M[F]_nt) (X : 'M[F]_(tn l, nt)) :
+  let s := MkQ (tn l) (Symm [::] l) d l in
+  (forall k, (k < tn l)%N -> nth 0 d k != 0) ->
+  den (tn l) (Lower d l) *m (den (tn l) (Lower d l))^T = Sm ->
+  den (tn l) (Lower d l) \in unitmx ->
+  mx_of nt nt (nadd fops Nstar Kss) = mx_of nt nt Kss + Nsm ->
+  Sm *m X = mx_of (tn l) nt Ks ->
+  mx_of nt nt (quasisep_condition_dense fops nt s Ks Kss Nstar)
+  = mx_of nt nt Kss + Nsm - (mx_of (tn l) nt Ks)^T *m X.
+Proof.
+move=> s dnz LLt Lu HN SX.
+rewrite /quasisep_condition_dense mx_of_lsub mx_of_lmul mx_of_ltr HN /q_solve_tri /=.
+apply: (cond_cov_factor _ LLt Lu _ SX).
+exact: lower_solve_den.
+Qed.
+End CondModel.
+
+(* ---------------- C12: a draw is mean + L z ; triangular product and solve are mutually inverse ---------------- *)
+Section SampleModel.
+Variable F : fieldType.
+Variables (sq : F -> F) (lt : F -> F -> bool).
+Notation fops := (fops sq lt).
+
+(* entry (idx, i) of the draw is mean_i + sum_j L_ij z[j, idx], for every flattened sample index idx < c *)
+Theorem sample_is_mean_plus_Lz c (d : vec F) (l : tri F) (A : qsm F) (mu : vec F) (z : mat F) :
+  let s := MkQ (tn l) A d l in
+  forall (j : 'I_c) (i : 'I_(tn l)),
+  mx_of c (tn l) (gp_sample_quasisep fops c s mu z) j i
+  = nth 0 mu i + (den (tn l) (Lower d l) *m mx_of (tn l) c z) i j.
+Proof.
+move=> s j i; rewrite /gp_sample_quasisep mx_of_mmk mxE /q_dot_tri /=.
+by rewrite -(@qmatmul_den _ sq lt c (Lower d l) z) // mxE.
+Qed.
+
+(* solve(L, L y) = y and L solve(L, y) = y for every right-hand-side width *)
+Theorem dot_solve_inverse c (d : vec F) (l : tri F) (y : mat F) :
+  (forall k, (k < tn l)%N -> nth 0 d k != 0) -> den (tn l) (Lower d l) \in unitmx ->
+  mx_of (tn l) c (lower_solve fops c d l (qmatmul fops c (Lower d l) y)) = mx_of (tn l) c y /\
+  mx_of (tn l) c (qmatmul fops c (Lower d l) (lower_solve fops c d l y)) = mx_of (tn l) c y.
+Proof.
+move=> dnz Lu; split; last exact: lower_solve_sound.
+apply: (can_inj (mulKmx Lu)).
+by rewrite lower_solve_den // (@qmatmul_den _ sq lt c (Lower d l) y).
+Qed.
+End SampleModel.
